@@ -301,3 +301,35 @@ Proof. induction sl as [|s r IH]; intros x H; cbn [asweep amoves] in *.
     + constructor; [|exact IH2]. cbn [s_e]. intros i Hi. unfold vsub. rewrite (Hx i Hi). ring. Qed.
 
 End Bound.
+
+(* ---- the hypotheses are satisfiable; the bound can be strict and can be tight ----
+   Q^2, two half-spaces  C1 = { w | w 1 >= w 0 },  C2 = { w | w 1 <= 0 }.
+   (i)  x0 = (2, 1), y = (-1, -1), two sweeps: x2 = (3/4, 0), the squared
+        movements are 11/4 and 27/16, and 65/16 + 71/16 < 13 (strict).
+   (ii) x0 = (1, -1), y = (0, 0) (the nearest common point), two sweeps:
+        x2 = y, the squared movements are 2 and 0, and 0 + 2 = 2 (tight). *)
+Definition bd_I : list nat := [0%nat; 1%nat].
+Definition bd_v (a b : Q) : nat -> Q := fun i => if (i =? 0)%nat then a else b.
+Definition bd_c1 := bd_v (-1) 1.
+Definition bd_c2 := bd_v 0 (-1).
+Definition bd_sl : list (slot (A:=nat)) :=
+  [mkSlot (fun w => 0 <= ip bd_I bd_c1 w) (hs_proj bd_I bd_c1) vzero;
+   mkSlot (fun w => 0 <= ip bd_I bd_c2 w) (hs_proj bd_I bd_c2) vzero].
+Example dykstra_bound_hyps :
+  let x0 := bd_v 2 1 in let y := bd_v (-1) (-1) in
+  let x0' := bd_v 1 (-1) in let y' := bd_v 0 0 in
+  (forall s, In s bd_sl -> sgood bd_I y s) /\ (forall s, In s bd_sl -> sgood bd_I y' s) /\
+  (forall s, In s bd_sl -> veq bd_I (s_e s) vzero) /\
+  d2 bd_I (fst (aloop 2 (x0, bd_sl))) y + qsum (aloop_moves bd_I 2 (x0, bd_sl)) < d2 bd_I x0 y /\
+  0 < nth 1 (aloop_moves bd_I 2 (x0, bd_sl)) 0 /\
+  d2 bd_I (fst (aloop 2 (x0', bd_sl))) y' + qsum (aloop_moves bd_I 2 (x0', bd_sl)) == d2 bd_I x0' y'.
+Proof. cbv zeta.
+  assert (G : forall y, 0 <= ip bd_I bd_c1 y -> 0 <= ip bd_I bd_c2 y -> forall s, In s bd_sl -> sgood bd_I y s).
+  { intros y H1 H2 s [<-|[<-|[]]]; (split; [cbn [s_C s_P]; apply halfspace_is_proj; vm_compute; reflexivity|cbn [s_C]; assumption]). }
+  split; [|split; [|split; [|split; [|split]]]].
+  - apply G; apply Qle_bool_iff; vm_compute; reflexivity.
+  - apply G; apply Qle_bool_iff; vm_compute; reflexivity.
+  - intros s [<-|[<-|[]]]; apply veq_refl.
+  - vm_compute. reflexivity.
+  - vm_compute. reflexivity.
+  - apply Qeq_bool_eq. vm_compute. reflexivity. Qed.
